@@ -31,13 +31,11 @@ Theorem C05_vocabulary :
      NoDup (node_ids (p_rc p)) /\ simple_edgesb (gedges (p_rc p)) = true /\
      (forall a b x, In (a, b, x) (gedges (p_rc p)) -> In a (node_ids (p_rc p)) /\ In b (node_ids (p_rc p))) /\
      (forall u, In u (node_ids (p_pat p)) -> In u (node_ids (p_rc p)))) /\
-  (* [side_ok_c]: the facts above and the component-aware search below the engine's threshold *)
-  (forall host p, side_okb host p = true ->
-     (comp_bound (C06_Model.monos_on (host_c06 host) (pat_c06 (p_pat p))) true (host_c06 host) (pat_c06 (p_pat p)) <= DEFAULT_THRESHOLD)%N ->
-     side_ok_c host p).
-Proof. exact (conj (proj1 vocabulary) (conj (proj1 (proj2 vocabulary)) (conj (proj1 (proj2 (proj2 vocabulary)))
-         (conj (proj1 (proj2 (proj2 (proj2 vocabulary)))) (conj (proj2 (proj2 (proj2 (proj2 vocabulary))))
-           (fun host p S B => conj (side_okb_ok host p S) B)))))). Qed.
+  (* [side_okb_c] (what the run function evaluates) = [side_okb] and the component-aware bound of the C06 specification *)
+  (forall host p, side_okb_c host p = true ->
+     side_okb host p = true /\
+     (comp_bound (C06_Model.monos_on (host_c06 host) (pat_c06 (p_pat p))) true (host_c06 host) (pat_c06 (p_pat p)) <= DEFAULT_THRESHOLD)%N).
+Proof. exact vocabulary_c. Qed.
 Print Assumptions C05_vocabulary.
 
 (** 1. Gluing is equivariant: the relabelled rule glued onto the relabelled substrate along the transported match is the
@@ -253,10 +251,10 @@ Print Assumptions C05_result_set_invariant_exhaustive.
     rewritten and the template's map numbers are permuted, for all strategies, modes and directions.
     PROVED: for every strategy, every renumbering (sg, pi) and every re-ordering of atoms, bonds and bond orientations
     of substrate, rule graph and pattern, the glued ITS graphs of the rewritten inputs are, as a set of observationally
-    equal graphs, exactly the renumbered glued ITS graphs of the original.  Premises per writing: [side_okb] (evaluated
-    by the correspondence on every writing) and, for the component-aware search, its longest intermediate list below
-    the engine's threshold ([comp_bound], a function of the C06 specification, not evaluated per case: past the
-    threshold the engine empties results, which is outside the property).
+    equal graphs, exactly the renumbered glued ITS graphs of the original.  Premise per writing: the boolean [side_okb_c] = [side_okb] and
+    the longest intermediate list of the component-aware search below the engine's threshold of 5000 (past it the engine
+    empties results, which is outside the property); it is evaluated by the correspondence on every writing of every
+    case ([run_c05]).
     MISSING for the full clause: (i) the RDKit half — rewritten SMILES parse to [same_graph]s up to numbering, and
     observationally equal ITS graphs serialise to equal standardised strings (oracle contract, monitored by the
     metamorphic oracle on every case); (ii) patterns that keep explicit X-H bonds (re-matching on the hydrogen-expanded
@@ -269,19 +267,14 @@ Theorem C05_result_set_invariant_partial :
   forall (strat : N), strat = 0%N \/ strat = 1%N \/ strat = 2%N ->
   forall (sg pi : N -> N), inj sg -> inj pi ->
   forall (host host'' : hostg) (p p'' : prepared),
-    side_okb (relabel pi host) (relabel_prep sg p) = true -> side_okb host'' p'' = true ->
-    (comp_bound (C06_Model.monos_on (host_c06 (relabel pi host)) (pat_c06 (p_pat (relabel_prep sg p)))) true
-                (host_c06 (relabel pi host)) (pat_c06 (p_pat (relabel_prep sg p))) <= DEFAULT_THRESHOLD)%N ->
-    (comp_bound (C06_Model.monos_on (host_c06 host'') (pat_c06 (p_pat p''))) true (host_c06 host'') (pat_c06 (p_pat p''))
-       <= DEFAULT_THRESHOLD)%N ->
+    side_okb_c (relabel pi host) (relabel_prep sg p) = true -> side_okb_c host'' p'' = true ->
     same_graph (relabel pi host) host'' -> same_graph (relabel sg (p_rc p)) (p_rc p'') ->
     same_graph (relabel sg (p_pat p)) (p_pat p'') ->
     (forall T, In T (glued_of strat host p) -> exists T'', In T'' (glued_of strat host'' p'') /\ obs_eq (relabel pi T) T'') /\
     (forall T'', In T'' (glued_of strat host'' p'') -> exists T, In T (glued_of strat host p) /\ obs_eq (relabel pi T) T'').
 Proof.
-  intros strat Hst sg pi Hs Hp host host'' p p'' S S'' B B''.
-  exact (glued_set_rewriting_any strat sg pi Hs Hp host host'' p p'' Hst
-           (conj (side_okb_ok _ _ S) B) (conj (side_okb_ok _ _ S'') B'')).
+  intros strat Hst sg pi Hs Hp host host'' p p'' S S''.
+  exact (glued_set_rewriting_any strat sg pi Hs Hp host host'' p p'' Hst (side_okb_c_ok _ _ S) (side_okb_c_ok _ _ S'')).
 Qed.
 Print Assumptions C05_result_set_invariant_partial.
 
@@ -289,7 +282,7 @@ Print Assumptions C05_result_set_invariant_partial.
     directions, every strategy: if the substrate is rewritten (renumbered by pi, any re-ordering) and the template ITS is
     rewritten (map numbers permuted by sg, any re-ordering of its node and edge lists), then the rewritten template is
     prepared into a rule again, both pipelines return their glued graphs, and the two result sets correspond one to one
-    up to the renumbering (premises [side_ok_c] = [side_okb] + the component-aware bound, as in 8).  Rule preparation
+    up to the renumbering (premises [side_okb_c], as in 8).  Rule preparation
     (its_decompose, typesGH refresh, _invert_template, the explicit X-H test) only depends on the template as a graph. *)
 Theorem C05_pipeline_set_invariant_implicit :
   forall (strat : N), strat = 0%N \/ strat = 1%N \/ strat = 2%N ->
@@ -301,11 +294,14 @@ Theorem C05_pipeline_set_invariant_implicit :
     exists p'', prepare inv true tpl'' = Some p'' /\ p_flag p'' = false /\
       pipeline inv true false strat host tpl = Some (glued_of strat host p) /\
       pipeline inv true false strat host'' tpl'' = Some (glued_of strat host'' p'') /\
-      (side_ok_c (relabel pi host) (relabel_prep sg p) -> side_ok_c host'' p'' ->
+      (side_okb_c (relabel pi host) (relabel_prep sg p) = true -> side_okb_c host'' p'' = true ->
        (forall T, In T (glued_of strat host p) -> exists T'', In T'' (glued_of strat host'' p'') /\ obs_eq (relabel pi T) T'') /\
        (forall T'', In T'' (glued_of strat host'' p'') -> exists T, In T (glued_of strat host p) /\ obs_eq (relabel pi T) T'')).
 Proof.
-  intros strat Hst sg pi inv host host'' tpl tpl'' p Hs Hp.
-  exact (pipeline_set_invariant strat sg pi inv host host'' tpl tpl'' p Hst Hs Hp).
+  intros strat Hst sg pi inv host host'' tpl tpl'' p Hs Hp Hprep Hflag Hw Hw'' Hh Ht.
+  destruct (pipeline_set_invariant strat sg pi inv host host'' tpl tpl'' p Hst Hs Hp Hprep Hflag Hw Hw'' Hh Ht)
+    as (p'' & A & B & C & D & E).
+  exists p''. split; [exact A|]. split; [exact B|]. split; [exact C|]. split; [exact D|].
+  intros S S''. exact (E (side_okb_c_ok _ _ S) (side_okb_c_ok _ _ S'')).
 Qed.
 Print Assumptions C05_pipeline_set_invariant_implicit.
